@@ -441,10 +441,7 @@ theorem removeIfAux_spec (f : α → Bool) : ∀ (r : Nat) (T K : List α) (g : 
       · rw [if_pos hf, destroy_mid s _ _ i x hc1 (by simp [hi]), Option.bind_some]
         rw [ih T' K (g + 1) _ B (i + 1) j (n - 1) (by simp [List.replicate_succ']) (by simpa using hT) (by omega) hj]
         simp [hf]
-        refine ⟨⟨?_, ?_⟩, ?_⟩
-        · congr 1; omega
-        · omega
-        · omega
+        omega
       · rw [if_neg hf]
         have hc2 : s.cells = K.map some ++ List.replicate g none ++ [some x] ++ (T'.map some ++ B) := by rw [hc]; simp
         rw [relocate_left s (K.map some) [some x] (T'.map some ++ B) g j i 1 hc2 (by simp [hj]) (by simp [hi]) rfl,
@@ -470,5 +467,113 @@ theorem removeIf_refines (f : α → Bool) : Refines (removeIf f) (fun l => l.fi
   · simp [cellsOf, nones_add]
   · omega
   · simp only []; omega
+
+
+
+theorem assignFrom_rep (xs P Y Q : List α) (s : BS α) (k off : Nat) (h : Rep s (P ++ Y ++ Q) k)
+    (hY : Y.length = xs.length) (hoff : off = P.length) :
+    ∃ s', assignFrom xs s off = some s' ∧ Rep s' (P ++ xs ++ Q) k ∧ s'.rc = s.rc ∧ s'.live = s.live ∧ s'.moved = s.moved := by
+  obtain ⟨hn, hc, hpos⟩ := h
+  have hc' : s.cells = P.map some ++ Y.map some ++ (Q.map some ++ List.replicate k none) := by
+    rw [hc, cellsOf]; simp
+  rw [assignFrom_mid xs Y s _ _ off hc' hY (by simp [hoff])]
+  refine ⟨_, rfl, ⟨?_, ?_, ?_⟩, rfl, rfl, rfl⟩
+  · simp [hn]; omega
+  · simp [cellsOf]
+  · simp at hpos ⊢; omega
+
+theorem append_vals_refines (E : Elem α) (xs : List α) : Refines (fun s => append E s (.vals xs)) (fun l => l ++ xs) := by
+  intro s l k h
+  obtain ⟨s1, k1, hs1, hrep1, hrc1, hlive1⟩ := resize_refines E (s.n + xs.length) s l k h
+  dsimp only at hs1 hrep1 hlive1
+  have hn := h.1
+  have e1 : l.take (s.n + xs.length) ++ List.replicate (s.n + xs.length - l.length) E.dflt
+      = l ++ List.replicate xs.length E.dflt ++ [] := by
+    rw [List.take_of_length_le (by omega), hn]; simp
+  rw [e1] at hrep1 hlive1
+  obtain ⟨s2, hs2, hrep2, hrc2, hlive2, _⟩ := assignFrom_rep xs l (List.replicate xs.length E.dflt) [] s1 k1 s.n hrep1 (by simp) hn
+  refine ⟨s2, k1, ?_, by simpa using hrep2, by rw [hrc2, hrc1], ?_⟩
+  · show (resize E s (s.n + xs.length)).bind _ = _
+    rw [hs1, Option.bind_some]; exact hs2
+  · rw [hlive2, hlive1]; simp
+
+theorem append_self_refines (E : Elem α) : Refines (fun s => append E s .self) (fun l => l ++ l) := by
+  intro s l k h
+  dsimp only
+  obtain ⟨s1, k1, hs1, hrep1, hrc1, hlive1⟩ := resize_refines E (s.n + s.n) s l k h
+  dsimp only at hs1 hrep1 hlive1
+  have hn := h.1
+  have e1 : l.take (s.n + s.n) ++ List.replicate (s.n + s.n - l.length) E.dflt = l ++ List.replicate l.length E.dflt := by
+    rw [List.take_of_length_le (by omega), hn]; simp
+  rw [e1] at hrep1 hlive1
+  obtain ⟨hn1, hc1, hpos1⟩ := hrep1
+  have hc1' : s1.cells = [] ++ l.map some ++ [] ++ (List.replicate l.length E.dflt).map some ++ List.replicate k1 none := by
+    rw [hc1, cellsOf]; simp
+  have hs2 := assignSelf_disjoint l.length l (List.replicate l.length E.dflt) s1 [] [] _ s.n 0 hc1' rfl (by simp) rfl (by simp [hn])
+  refine ⟨{ s1 with cells := [] ++ l.map some ++ [] ++ l.map some ++ List.replicate k1 none }, k1, ?_, ⟨?_, ?_, ?_⟩, ?_, ?_⟩
+  · show (resize E s (s.n + s.n)).bind _ = _
+    rw [hs1, Option.bind_some, hn]; rw [hn] at hs2; exact hs2
+  · simpa using hn1
+  · simp [cellsOf]
+  · simp at hpos1 ⊢; omega
+  · simpa using hrc1
+  · simp [hlive1]
+
+theorem copy_vals_refines (E : Elem α) (xs : List α) : Refines (fun s => copy E s (.vals xs)) (fun _ => xs) := by
+  intro s l k h
+  obtain ⟨s1, k1, hs1, hrep1, hrc1, hlive1⟩ := resize_refines E xs.length s l k h
+  dsimp only at hs1 hrep1 hlive1
+  have hlen : (l.take xs.length ++ List.replicate (xs.length - l.length) E.dflt).length = xs.length := by
+    simp; omega
+  have e1 : l.take xs.length ++ List.replicate (xs.length - l.length) E.dflt
+      = [] ++ (l.take xs.length ++ List.replicate (xs.length - l.length) E.dflt) ++ [] := by simp
+  rw [e1] at hrep1
+  obtain ⟨s2, hs2, hrep2, hrc2, hlive2, _⟩ := assignFrom_rep xs [] _ [] s1 k1 0 hrep1 hlen rfl
+  refine ⟨s2, k1, ?_, by simpa using hrep2, by rw [hrc2, hrc1], ?_⟩
+  · show (resize E s xs.length).bind _ = _
+    rw [hs1, Option.bind_some]; exact hs2
+  · rw [hlive2, hlive1, hlen]
+
+theorem copy_self_refines (E : Elem α) : Refines (fun s => copy E s .self) (fun l => l) := by
+  intro s l k h
+  obtain ⟨s1, k1, hs1, hrep1, hrc1, hlive1⟩ := resize_refines E s.n s l k h
+  dsimp only at hs1 hrep1 hlive1
+  have hn := h.1
+  have e1 : l.take s.n ++ List.replicate (s.n - l.length) E.dflt = l := by
+    rw [List.take_of_length_le (by omega), hn]; simp
+  rw [e1] at hrep1 hlive1
+  have hc1' : s1.cells = [] ++ l.map some ++ List.replicate k1 none := by rw [hrep1.2.1, cellsOf]; simp
+  refine ⟨s1, k1, ?_, hrep1, hrc1, hlive1⟩
+  show (resize E s s.n).bind _ = _
+  rw [hs1, Option.bind_some]
+  exact assignSelf_same s.n l s1 [] _ 0 hc1' hn.symm rfl
+
+theorem pushAll_spec : ∀ (xs : List α) (s : BS α) (l : List α) (k : Nat), Rep s l k →
+    ∃ s' k', pushAll xs s = some s' ∧ Rep s' (l ++ xs) k' ∧ s'.rc = s.rc ∧ s'.live = s.live + xs.length := by
+  intro xs
+  induction xs with
+  | nil => intro s l k h; exact ⟨s, k, rfl, by simpa using h, rfl, by simp⟩
+  | cons x xs ih =>
+    intro s l k h
+    obtain ⟨s1, k1, hs1, hrep1, hrc1, hlive1⟩ := insert_spec s l k s.n (.val x) x h (by rw [h.1]; exact Nat.le_refl _) rfl
+    have e : l.take s.n ++ x :: l.drop s.n = l ++ [x] := by
+      rw [h.1, List.take_of_length_le (Nat.le_refl _), List.drop_of_length_le (Nat.le_refl _)]
+    rw [e] at hrep1
+    obtain ⟨s2, k2, hs2, hrep2, hrc2, hlive2⟩ := ih s1 (l ++ [x]) k1 hrep1
+    refine ⟨s2, k2, ?_, by simpa using hrep2, by rw [hrc2, hrc1], ?_⟩
+    · rw [pushAll, hs1, Option.bind_some]; exact hs2
+    · rw [hlive2, hlive1]; simp; omega
+
+theorem alloc_spec (E : Elem α) (live : Int) (m : Nat) :
+    ∃ s, alloc E live m = some s ∧ Rep s (List.replicate m E.dflt) (max m 3 - m) ∧ s.rc = 1 ∧ s.live = live + m := by
+  unfold alloc
+  have hc : (⟨List.replicate (max m 3) none, m, 1, live, false⟩ : BS α).cells
+      = [] ++ List.replicate m none ++ List.replicate (max m 3 - m) none := by
+    simp [nones_add]; omega
+  rw [constructN_mid E.dflt m _ [] _ 0 hc rfl]
+  refine ⟨_, rfl, ⟨?_, ?_, ?_⟩, rfl, rfl⟩
+  · simp
+  · simp [cellsOf]
+  · simp; omega
 
 end AslProofs.Arr
